@@ -43,6 +43,7 @@ func runC12(c *eng.Ctx) {
 	defer func() { rt.SetNoise(0); c.R.Count("internal_yield_points_passed", rt.YieldCount()) }()
 	runC12RootContext(c, next)
 	runC12Reentrant(c, next)
+	runC12DerivedContexts(c, next)
 	runAgedProcess(c, "C12", next)
 	runC12CreateVsClose(c, next)
 	core.RunFuncDisposables(c, "C12", next)
